@@ -159,6 +159,33 @@ def gen_ops(rng, case, thorough):
             b = [fr(h) for h in case['brk'][d]]
             supp.append([hx(b[0] + (b[-1] - b[0]) / 4), hx(b[-1] - (b[-1] - b[0]) / 4)])
         ops.append(dict(op='restrict_support', arg=supp, bd=rng.choice(BDNAMES[:2 * sdim]), **G))
+        # partially restricted supports: every non-empty subset of the axes restricted, the others left at the
+        # full knot span; boundaries on sides of restricted AND of untouched axes (thorough: every bdspec)
+        import itertools as _it
+        for sub in _it.product([False, True], repeat=sdim):
+            if not any(sub):
+                continue
+            psupp = [supp[d] if sub[d] else [case['brk'][d][0], case['brk'][d][-1]] for d in range(sdim)]
+            specs = BDNAMES[:2 * sdim] + [[ax_, sd_] for ax_ in range(sdim) for sd_ in (0, 1)]
+            if not thorough:
+                untouched = [sp for sp in specs if not sub[parse_expected(sp, sdim)[0]]]
+                touched = [sp for sp in specs if sub[parse_expected(sp, sdim)[0]]]
+                specs = ([rng.choice(untouched)] if untouched else []) + [rng.choice(touched)]
+            bds = []
+            for sp in specs:
+                ax_ = parse_expected(sp, sdim)[0]
+                grid_ = []
+                for d in range(sdim):
+                    if d == ax_:
+                        continue
+                    lo, hi = fr(psupp[d][0]), fr(psupp[d][1])
+                    b_ = [fr(h) for h in case['brk'][d]]
+                    pts_ = [lo, hi]                                   # the ends of the (restricted) range
+                    if sub[d]:
+                        pts_.append((b_[0] + lo) / 2)                 # a point outside the restricted range (inside the knot span)
+                    grid_.append([hx(x) for x in pts_])
+                bds.append({'bd': sp, 'grid': grid_, 'bbox': len(tail) <= 1})
+            ops.append({'op': 'restricted_boundary', 'arg': psupp, 'restricted': list(sub), 'bds': bds})
     if kind == 'bsp' and len(tail) <= 1 and sdim <= 2:
         ops.append({'op': 'cylinderize', 'z0': dy(-4, 4), 'z1': dy(5, 9), 'support': [hx(Fraction(1, 2)), hx(Fraction(3, 2))],
                     'grid': [[hx(Fraction(3, 4)), hx(Fraction(5, 4))]] + case['grid']})
@@ -620,6 +647,9 @@ def run_ops(ck):
                     ck.fail('support-boundary-coordinate', 'boundary(%r) of the restricted function fixes %r, expected the end %r of the restricted support' % (
                         op['bd'], float(fr(r['boundary_fixed'])), float(supp[ax][side])))
             expected = lambda xs: value_of(ck.of, kind, xs)
+        elif name == 'restricted_boundary':
+            check_restricted_boundary(ck, op, r)
+            continue
         elif name == 'cylinderize':
             z0, z1 = fr(op['z0']), fr(op['z1'])
             s0, s1 = [fr(h) for h in op['support']]
@@ -665,6 +695,9 @@ def run_ops(ck):
         if name == 'composed':
             check_composed(ck, op, r)
             continue
+        if name in ('copy', 'translate', 'scale', 'boundary', 'restrict_support') and r.get('output_shape') != tail:
+            ck.fail('op-output-shape', '%s of a function with output shape %s returns a function with output shape %s' % (name, tail, r.get('output_shape')),
+                    op=name)
         if r.get('cls') != exp_cls:
             ck.fail('op-%s-class' % name, '%s returns a %s, documented %s' % (name, r.get('cls'), exp_cls))
             continue
@@ -722,6 +755,66 @@ def check_boundary_function(ck, op, r, ax, fixed):
         else:
             ck.cmp('boundary_function-call', [fr(h) for h in c['ok']['v']], v, 2 * O.pow2_ceil(b0),
                    '_BoundaryFunction.__call__ differs from the trace (coordinate inserted at the wrong position)', xs)
+
+
+def check_restricted_boundary(ck, op, r):
+    """boundary() of a function whose support is restricted along a subset of the axes, against the model
+    support_restriction_spec / boundary_support_spec: the result is f restricted to the coordinate
+    support[axis][side]; its support is the (restricted) support of the remaining axes; bounding_box() is the
+    box of its corner values; evaluation does not depend on the support (also outside the restricted range)."""
+    sdim, m, kind = ck.sdim, ck.m, ck.kind
+    tail = r.get('output_shape', ck.tail)       # shapes of the restricted copy itself (op-output-shape checks copy())
+    supp = [[fr(h) for h in s_] for s_ in op['arg']]
+    sub = ''.join('r' if x else '-' for x in op['restricted'])
+    if [[fr(h) for h in s_] for s_ in r['support']] != supp:
+        ck.fail('support-setter', 'support after restriction %s is %r' % (sub, r['support']))
+    ck.coq_sides = getattr(ck, 'coq_sides', [])
+    for sd, e in zip(op['bds'], r['sides']):
+        ax, side = parse_expected(sd['bd'], sdim)
+        where = 'restricted=%s boundary(%r) [%s axis]' % (sub, sd['bd'], 'restricted' if op['restricted'][ax] else 'untouched')
+        tag = 'own' if op['restricted'][ax] else 'other'
+        if e['status'] != 'Ok':
+            ck.fail('restricted-boundary-raises-%s:%s' % (e['status'], tag), '%s raised %s: %s' % (where, e['status'], e.get('msg')), op=sd['bd'])
+            continue
+        exp_supp = [s_ for d_, s_ in enumerate(supp) if d_ != ax]
+        got_supp = [[fr(h) for h in s_] for s_ in e['support']]
+        opt = 'Some %s' % clist(['(%s, %s)' % (cqc(a), cqc(b)) for a, b in supp])
+        ck.coq_ops.append('supp_eqb (r_boundary_support (%s) F %d%%nat %d%%nat) %s' % (
+            opt, ax, side, clist(['(%s, %s)' % (cqc(a), cqc(b)) for a, b in got_supp])))
+        if got_supp != exp_supp or e['sdim'] != sdim - 1:
+            ck.fail('restricted-boundary-support:%s' % tag, '%s has support %r, the side of the restricted patch has %r' % (
+                where, [[float(x) for x in s_] for s_ in got_supp], [[float(x) for x in s_] for s_ in exp_supp]),
+                op={'support': [[float(x) for x in s_] for s_ in supp], 'bd': sd['bd']})
+            continue
+        fixed = supp[ax][side]
+        if e.get('fixed') is not None and fr(e['fixed']) != fixed:
+            ck.fail('restricted-boundary-coordinate:%s' % tag, '%s fixes %r, expected the end %r of the support' % (where, float(fr(e['fixed'])), float(fixed)))
+
+        def full(xs, ax=ax, fixed=fixed):
+            us = list(reversed(xs))
+            us.insert(ax, fixed)
+            return list(reversed(us))
+        G = [len(a) for a in sd['grid']]
+        ge = ck.route(e['grid_eval'], 'restricted boundary.grid_eval', G + tail)
+        if ge is not None:
+            for k_, xs in enumerate(grid_points(sd['grid'])):
+                (v, _, _), (b0, _, _) = exact_at(ck.of, kind, full(xs))
+                ck.cmp('restricted-boundary-values:%s' % tag, ge[k_ * m:(k_ + 1) * m], v, 2 * O.pow2_ceil(b0),
+                       '%s: values differ from f on that side (ends of the restricted range / outside it)' % where, xs)
+        if sd.get('bbox') and e.get('bounding_box') is not None:
+            bb = ck.route(e['bounding_box'], 'restricted boundary.bounding_box', [m, 2])
+            if bb is not None:
+                import itertools as _it
+                corners = [list(reversed(us)) for us in _it.product(*[[s_[0], s_[1]] for s_ in exp_supp])]
+                vals = []
+                bmax = Fraction(0)
+                for xs in corners:
+                    (v, _, _), (b0, _, _) = exact_at(ck.of, kind, full(xs))
+                    vals.append(v)
+                    bmax = max(bmax, b0)
+                expbb = [x for c_ in range(m) for x in (min(v[c_] for v in vals), max(v[c_] for v in vals))]
+                ck.cmp('restricted-boundary-bounding_box:%s' % tag, bb, expbb, 2 * O.pow2_ceil(bmax),
+                       '%s: bounding_box() is not the box of the corner values of the side of the restricted patch' % where)
 
 
 def check_composed(ck, op, r):
@@ -1084,6 +1177,8 @@ def classify(code, ck):
         return 'pointwise-jacobian-slot:%s' % tc                 # tp_bsp_jac_pointwise: result[k, :, slot]
     if code.startswith('grid_hessian-raises') and ck.kind == 'bsp' and ck.tail == [1]:
         return 'hessian-dim1-vector'                             # grid_hessian of a (..., 1) coefficient array
+    if code == 'op-output-shape' and ck.kind == 'nurbs' and ck.tail == []:
+        return 'nurbs-scalar-shape-lost'                         # NurbsFunc copy/boundary/translate/scale of a scalar function
     if code.startswith('ComposedFunction(scalar geo2)'):
         return 'composed-jacobian-scalar-geo2'                   # ComposedFunction.grid_jacobian: matmul of a gradient array
     return '%s:%s:sdim%d:%s' % (code, ck.kind, ck.sdim, tc)
